@@ -1,5 +1,8 @@
 use std::sync::Arc;
+#[cfg(not(feature = "verif-hooks"))]
 use tokio::sync::RwLock;
+#[cfg(feature = "verif-hooks")]
+use crate::verif::RwLock;
 
 use emmylua_code_analysis::EmmyLuaAnalysis;
 
